@@ -73,6 +73,179 @@ def run(ctx):
                               "attribute_op_then_commit_part", seed_base=820000)
     engine_check.scenario_run(ctx, "scen_engine.placeholder_follow_builder", MONITORS, nontrivial, RULE, 16, 300, 12,
                               "placeholder_follower_part", seed_base=830000)
+    twin_pass(ctx)
+
+
+# ------------------------------------------------------------------ a Continue batch = its items sent one by one
+def twin_case(args):
+    """Two real engines in lockstep on the same history.  Engine A receives every request as it is; engine B receives
+    each multi-item CONTINUE batch as single-item requests, one per item, in order (an item that names no identifier
+    gets the identifier the most recent successful creating item of the batch reported - what the ID placeholder
+    stands for).  "A batch item that reports failure does not disturb later items" and "the result of the batch is
+    the list of the results of its items": every item must be answered the same on both, and the stores must agree
+    after every request.  Implementation only."""
+    seed, length = args
+    import copy
+    import gen_engine
+    import impl_engine
+    from scen_engine import _A
+    from gen_engine import hexof
+    g = gen_engine.Gen(seed, dict(PROFILE, groups=0.0, missing_bid=0.0, restart=0.0))
+    A = impl_engine.ImplEngine()
+    B = impl_engine.ImplEngine()
+    fails = []
+    nb = ni = 0
+    rich = [None]
+    nm = lambda v: {"k": "name", "v": v, "t": 1}
+
+    def both(line):
+        oa = A.handle(copy.deepcopy(line))
+        B.handle(copy.deepcopy(line))
+        g.observe(line, oa)
+        return oa
+
+    def attr_batch(ver):
+        """[an attribute operation on the rich object: rename to a sibling's value, far index, delete...; a Create;
+        a GetAttributes of the rich object]"""
+        R = rich[0]
+        if ver < 20:
+            first = g.ch([
+                {"op": "modifyAttribute", "uid": R, "attr": {"name": "Name", "index": 1, "value": nm("alpha")}, "current": None, "new": None},
+                {"op": "modifyAttribute", "uid": R, "attr": {"name": "Name", "index": 0, "value": nm("beta")}, "current": None, "new": None},
+                {"op": "modifyAttribute", "uid": R, "attr": {"name": "Name", "index": 7, "value": nm("far")}, "current": None, "new": None},
+                {"op": "deleteAttribute", "uid": R, "name": "Name", "index": 9, "current": None, "reference": None},
+                {"op": "modifyAttribute", "uid": R, "attr": {"name": "Object Group", "index": 1, "value": {"k": "text", "v": "grpA"}}, "current": None, "new": None},
+            ])
+        else:
+            cur = lambda n, v: {"name": n, "index": None, "value": v}
+            first = g.ch([
+                {"op": "modifyAttribute", "uid": R, "attr": None, "current": cur("Name", nm("beta")), "new": cur("Name", nm("alpha"))},
+                {"op": "modifyAttribute", "uid": R, "attr": None, "current": cur("Name", nm("nosuch")), "new": cur("Name", nm("x"))},
+                {"op": "deleteAttribute", "uid": R, "name": None, "index": None, "current": cur("Name", nm("nosuch")), "reference": None},
+            ])
+        items = [dict(first, bid="a0", crypto=None),
+                 {"op": "create", "bid": "a1", "otype": 2, "crypto": {"k": "ok", "t": hexof(16, rnd=g.r)},
+                  "tmpl": {"tnames": 0, "attrs": [_A("Cryptographic Algorithm", "enum", 3), _A("Cryptographic Length", "int", 128),
+                                                   _A("Cryptographic Usage Mask", "int", 12)]}},
+                 {"op": "getAttributes", "bid": "a2", "crypto": None, "uid": R, "names": []},
+                 {"op": "activate", "bid": "a3", "crypto": None, "uid": None}]
+        return {"cmd": "req", "now": g.now, "id": {"user": "alice", "groups": None},
+                "req": {"version": ver, "ts": None, "async": None, "bopt": 1, "maxsize": None, "items": items}}
+    try:
+        for step in range(length):
+            ver = g.ch([12, 13, 14, 14, 20])
+            if step % 4 == 1:
+                if rich[0] is None:
+                    attrs = [_A("Cryptographic Algorithm", "enum", 3), _A("Cryptographic Length", "int", 128),
+                             _A("Cryptographic Usage Mask", "int", 12)]
+                    attrs += [_A("Name", "name", n, k, t=1) for k, n in enumerate(["alpha", "beta", "gamma"])]
+                    attrs += [_A("Object Group", "text", x, k) for k, x in enumerate(["grpA", "grpB"])]
+                    o = both({"cmd": "req", "now": g.now, "id": {"user": "alice", "groups": None},
+                              "req": {"version": 14, "ts": None, "async": None, "bopt": None, "maxsize": None,
+                                      "items": [{"op": "create", "bid": None, "otype": 2,
+                                                 "crypto": {"k": "ok", "t": hexof(16, rnd=g.r)},
+                                                 "tmpl": {"tnames": 0, "attrs": attrs}}]}})
+                    try:
+                        rich[0] = o["results"][0]["data"]["uid"]
+                    except Exception:
+                        rich[0] = None
+                if rich[0] is None:
+                    continue
+                line = attr_batch(ver)
+            else:
+                n = g.ch([1, 2, 3, 3, 4, 5])
+                line = g.line(nitems=n)
+                if n > 1:
+                    line["req"]["bopt"] = 1
+                if line["req"]["version"] not in (12, 13, 14, 20):
+                    line["req"]["version"] = ver
+            items = line["req"]["items"]
+            multi = len(items) > 1 and line["req"].get("bopt") == 1
+            try:
+                oa = A.handle(copy.deepcopy(line))
+            except impl_engine.BuildRefused:
+                continue
+            g.observe(line, oa)
+            if not multi or "results" not in oa:
+                try:
+                    ob = B.handle(copy.deepcopy(line))
+                except impl_engine.BuildRefused:
+                    ob = None
+                if ob is not None and obs_results(oa) != obs_results(ob):
+                    fails.append(("c08:twin-engines-differ", "the same request is answered differently by two engines with "
+                                  "the same history: %s vs %s" % (obs_results(oa), obs_results(ob)), line))
+                    break
+                continue
+            nb += 1
+            ph = None
+            for k, it in enumerate(items):
+                single = copy.deepcopy(it)
+                if single.get("uid", "absent") is None and it["op"] in M.PLACEHOLDER_USERS and ph is not None:
+                    single["uid"] = ph
+                one = {"cmd": "req", "now": line["now"], "id": line["id"], "req": dict(line["req"], items=[single], bopt=None)}
+                try:
+                    ob = B.handle(one)
+                except impl_engine.BuildRefused:
+                    ob = None
+                ni += 1
+                ra = oa["results"][k] if k < len(oa["results"]) else None
+                rb = ob["results"][0] if ob and ob.get("results") else None
+                if rb is not None and rb.get("status") == "ok":
+                    d = rb.get("data") or {}
+                    if it["op"] in ("create", "register", "deriveKey"):
+                        ph = d.get("uid")
+                    elif it["op"] == "createKeyPair":
+                        ph = d.get("priv")
+                if ra is None or rb is None:
+                    continue
+                va, vb = (ra.get("status"), ra.get("reason")), (rb.get("status"), rb.get("reason"))
+                if va != vb:
+                    fails.append(("c08:batch-item-answered-differently-than-alone:%s" % it["op"],
+                                  "item %d (%s) of a Continue batch of %d was answered %s/%s (%s); sent alone after its "
+                                  "predecessors it is answered %s/%s (%s) - earlier items of the batch: %s"
+                                  % (k, it["op"], len(items), va[0], va[1], (ra.get("msg") or "")[:80], vb[0], vb[1],
+                                     (rb.get("msg") or "")[:80],
+                                     [(x["op"], r.get("status"), r.get("reason")) for x, r in zip(items[:k], oa["results"])]),
+                                  line))
+                    break
+            if fails:
+                break
+            if strip_dump(A.dump()) != strip_dump(B.dump()):
+                fails.append(("c08:batch-leaves-another-store-than-its-items",
+                              "after a Continue batch the store differs from the store after its items sent one by one", line))
+                break
+    finally:
+        A.close()
+        B.close()
+    return {"fails": fails[:3], "batches": nb, "items": ni}
+
+
+def obs_results(o):
+    if not isinstance(o, dict):
+        return o
+    if "rejected" in o:
+        return ("rejected", o["rejected"])
+    return [(r.get("status"), r.get("reason")) for r in o.get("results", [])]
+
+
+def strip_dump(d):
+    return [{k: v for k, v in ob.items() if k not in ("value",)} for ob in (d or {}).get("objs", [])]
+
+
+def twin_pass(ctx):
+    import multiprocessing
+    n = 48 if ctx.tier == "quick" else 1200
+    args = [(ctx.seed * 1000003 + 870000 + i, 12) for i in range(n)]
+    with multiprocessing.get_context("fork").Pool(16) as pool:
+        res = pool.map(twin_case, args, chunksize=2)
+    nb = sum(r["batches"] for r in res)
+    ni = sum(r["items"] for r in res)
+    for a, r in zip(args, res):
+        for sig, what, line in r["fails"]:
+            ctx.report(sig, what, {"kind": "twin", "args": list(a), "line": line})
+    ctx.coverage["continue_batches_replayed_item_by_item"] = nb
+    ctx.coverage["items_compared_batch_vs_alone"] = ni
+    ctx.coverage["evaluations"] = (ctx.coverage.get("evaluations") or 0) + ni
 
 
 def search(ctx, broken):
@@ -80,4 +253,9 @@ def search(ctx, broken):
 
 
 def replay(ctx, rep):
+    if (rep.get("replay") or {}).get("kind") == "twin":
+        r = twin_case(tuple(rep["replay"]["args"]))
+        for sig, what, line in r["fails"]:
+            print("  %s: %s" % (sig, what))
+        return not r["fails"]
     return engine_check.standard_replay(ctx, rep, MONITORS)
